@@ -174,10 +174,10 @@ theorem fmtZone_head (off : Int) : NoDigitHead (fmtZone off) ∧ ∀ c cs, fmtZo
 /-! the whole timestamp -/
 
 theorem parseRaw_fmtChars (t : Time) (wf : TimeWF t) : parseRaw (fmtChars t) = .ok t := by
-  obtain ⟨hy0, hy1, hm1, hm2, hd1, hd2, hh, hmi, hs, hn, _, ho60, holo, hohi⟩ := wf
+  obtain ⟨hy0, hy1, hm1, hm2, hd1, hd2, hh, hmi, hs, hn, _, ho⟩ := wf
   have hz := fmtZone_head t.off
   have hfr := parseFrac_fmtFrac t.nanos hn (fmtZone t.off) hz.1 hz.2
-  have hzone := parseZone_fmtZone t.off ho60 holo hohi
+  have hzone := parseZone_fmtZone t.off (by omega) (by omega) (by omega)
   have hdd : t.day ≤ 31 := by
     have : daysIn t.month t.year ≤ 31 := by unfold daysIn; split <;> (try split) <;> omega
     omega
@@ -193,10 +193,14 @@ theorem roundMicro_wf (t : Time) (wf : TimeWF t) : roundMicro t = t := by
   obtain ⟨_, _, _, _, _, _, _, _, _, _, h, _⟩ := wf
   simp [roundMicro, h]
 
+theorem toUTC_wf (t : Time) (wf : TimeWF t) : toUTC t = t := by
+  obtain ⟨_, _, _, _, _, _, _, _, _, _, _, h⟩ := wf
+  simp [toUTC, h]
+
 theorem parseTime_formatTime (t : Time) (wf : TimeWF t) : parseTime (formatTime t) = .ok t := by
   have hr : readable t = true := by
-    obtain ⟨_, hy1, _, _, _, _, _, _, _, _, _, _, holo, hohi⟩ := wf
-    simp [readable, hy1, holo, hohi]
-  simp [parseTime, formatTime, parseRaw_fmtChars t wf, roundMicro_wf t wf, hr]
+    obtain ⟨hy0, hy1, _⟩ := wf
+    simp [readable, hy0, hy1]
+  simp [parseTime, formatTime, parseRaw_fmtChars t wf, roundMicro_wf t wf, toUTC_wf t wf, hr]
 
 end LogM
